@@ -13,6 +13,9 @@ BUILT = {
     'C02': ('exhaustive enumeration of operand values per opcode slot (all 256 byte values, all 65536 (d,n) pairs and words, all reachable jump targets) x base/case/format settings on the real assembler and disassembler',
             'Direction 1: for every opcode slot and additional-opcode setting, every value of every byte operand, displacement and jump offset (complete), all 65536 (d,n) pairs of LD (IX/IY+d),n, all 65536 words for a representative of each word-operand decoder (thorough: all of them), relative jumps at every address within reach of either end of memory, the 64K edge with wrap on/off, in every base indicator (two-letter pairs for two-operand forms), either case, decimal or hex: the emitted statement assembles to exactly the bytes it was decoded from (variant-flagged statements: assemble and re-disassemble to the same text, the byte list being what reproduces them); DEFB/DEFM/DEFW/DEFS ranges for all byte values and boundary words. Direction 2: every mnemonic form x 40 operand spellings x 3 case variants: assemble -> disassemble -> assemble is the identity.',
             "Base 'm' only where a signed operand is meaningful (non-zero immediates/displacements/addresses; not RST, IN A,(n), OUT (n),A, DEFS sizes). Word operands of non-representative slots use a 24-value boundary alphabet in the quick tier. Trusted: mc/refs/z80ref.py only to classify operand kinds and to supply mnemonic templates for direction 2."),
+    'C03': ('bounded-exhaustive enumeration of control-file layouts and annotation combinations through the real tool chain sna2skool -> skool2ctl -> sna2skool -> skool2ctl (fixed-point check)',
+            'S1: every C01-B control-file layout (blocks, sub-blocks, sublength patterns, bases, M and L directives) on three fills, the single-block ones also under 5 skool2ctl (-b always; -k, -h, -l) and 6 sna2skool (-H, -l, -w) option sets. S2: on six representative entries every (annotation kind x text) pair over ~50 kinds (title, D/N/E with 1-2 paragraphs, R plain and O: prefixed, start/mid comments, instruction and multi-instruction comments, M with and without length, dot and colon continuation lines, dot-only headers, every kind of @ directive incl. the six @ignoreua positions, > header/footer blocks) x a 14-text alphabet (blank, dots-only, braces in every unbalanced form, 120-character sentence, 100-character word, semicolon, leading *), plus every ordered pair of kinds. Oracle: the regenerated skool file equals the original byte for byte and the second control file equals the first.',
+            'Domain rules of the generator (what a skool file can express): titles/paragraphs are never empty or a lone dot (paragraph separator); dot/colon directives are judged with -k (they carry line breaks); a dot-only entry header is not combined with header directives or entry-level ASM directives (documented); ASM block directives inside entries are a documented limitation. Layouts that make sna2skool warn are counted as ill-formed, not judged.'),
     'C05': ('exhaustive enumeration of finite flag/ALU tables and of a bounded state alphabet per opcode slot, on the real simulators against a reference model',
             'Every (A, operand, carry/F) entry of every 8-bit ALU/rotate/BIT/INC/DEC/DAA/NEG/CPL/SCF/CCF/RLD/RRD table, and every opcode slot x operand fillings x one-at-a-time boundary deviations of every register/pair/T/IFF/IM from 2 base states x PC/SP wrap points, executed on all four simulator implementations and compared (registers, masked F, PC, T, ports, whole memory) with an independent reference model.',
             'Trusted: mc/refs/z80ref.py (flags from arithmetic definitions, timing from machine cycles), CPython, gcc. Undocumented flag bits that depend on Q/MEMPTR or on a repeating block instruction are masked. Register values outside the boundary alphabets are not covered for 16-bit and memory-addressed forms.'),
